@@ -199,6 +199,7 @@ def try_replay(scratch, cfg, cdir, h, fullnames, logf):
         info["notes"].append("Kani produced no concrete playback test")
         return info
     test_code, test_name = m.group(1), m.group(2)
+    test_code = test_code[test_code.index("#[test]"):]  # drop Kani's (multi-line) doc comment
     info["concrete_playback_test"] = test_code
     info["concrete_values"] = re.findall(r"// ([^\n]*)\n\s*vec!\[([^\]]*)\]", test_code)
     # locate the module file that holds the replay harness and append the test
@@ -410,12 +411,19 @@ def main():
 
         # ---- violations: replay + report ----
         viol_out = []
+        replayed_harnesses = {}
         for h, r, real in violations:
             rp = os.path.join(EVID, "replay", f"{prop}-{h['name']}.json")
             info = {"replayed_natively": False, "notes": []}
             kh = None
-            if h["kind"] != "verus":
+            rkey = h.get("replay", h["name"])
+            if rkey in replayed_harnesses:
+                info = replayed_harnesses[rkey]
+            elif len(replayed_harnesses) >= int(cfg.get("max_replays", 3)):
+                info = {"replayed_natively": False, "notes": ["replay budget exhausted (max_replays)"]}
+            elif h["kind"] != "verus":
                 info = try_replay(scratch, cfg, cdir, h, fullnames, logf)
+                replayed_harnesses[rkey] = info
             elif h.get("replay"):
                 kh = next((x for x in cfg.get("harness", []) if x["name"] == h["replay"]), None)
                 if kh:
